@@ -154,16 +154,25 @@ def check_mainimpls(invocations):
     mreq, idx = [], []
     for i, r in enumerate(resp):
         if r.startswith('(Trait') or r.startswith('(NoTrait'):
-            t, b, g, e, h, mi, ti = r.split('\t')
+            fields = r.split('\t')
+            t, b, g, e, h, mi, ti = fields[:7]
+            hi = fields[7] if len(fields) > 7 else None
             mreq.append('mainimpl\t%s\t%s' % (t, b)); idx.append((i, 'main'))
             mreq.append('helpertraits\t%s\t%s' % (t, b)); idx.append((i, 'helper'))
             if '(Unsupported' not in mi and '(Unsupported' not in ti and _plain_patterns(mi):
                 mreq.append('mainitems\t%s\t%s\t%s' % (t, ti, b)); idx.append((i, 'items'))
+            if hi is not None and '(Unsupported' not in hi and '(Unsupported' not in ti:
+                mreq.append('helperitems\t%s\t%s\t%s' % (t, ti, b)); idx.append((i, 'hitems'))
     mresp = cm.run_model(mreq, exe_model) if mreq else []
     out = []
     global ITEMS_COMPARED
     for (i, what), m in zip(idx, mresp):
-        if what == 'items':
+        if what == 'hitems':
+            hi = resp[i].split('\t')[7]
+            if m != hi:
+                out.append(dict(kind='correspondence', request=invocations[i], impl=hi[:4000], model=m[:4000],
+                                oracle='corr:hook/helperitems: the items of the helper trait the macro generates (the trait\'s own items / the signatures of the first inherent block) and the Coq model (GenMain.gen_helper_items) disagree'))
+        elif what == 'items':
             ITEMS_COMPARED += 1
             mi = resp[i].split('\t')[5]
             if m != mi:
